@@ -22,6 +22,8 @@ class Scen(CompScenario):
         self.caller("read", self.dut.read)
         self.caller("peek", self.dut.peek)
         self.caller("clear", self.dut.clear)
+        if c.get("peek2"):  # a second, independent caller of peek (simultaneous calls of one method)
+            self.caller("peek2", self.dut.peek)
         self.st: list = []  # reference model: bottom ... top
         self.replaced: set = set()  # tags pushed in a read+write cycle and still on the stack
         self.tag = 0
@@ -55,6 +57,8 @@ class Scen(CompScenario):
             "peek.en": int(rng.random() < pp),
             "clear.en": int(rng.random() < pc),
         }
+        if self.cfg.get("peek2"):
+            stim["peek2.en"] = int(rng.random() < max(pp, 0.5))
         self.tag += 1
         for k, f in enumerate(self.fields):
             name = f"write.i.{f}"
@@ -70,6 +74,11 @@ class Scen(CompScenario):
         # clear readiness is not stated by the property; only "done implies requested" is demanded of it
         exp_ready = {"write": notfull, "read": nonempty, "peek": nonempty, "clear": True}
         done = {}
+        if self.cfg.get("peek2") and stim.get("peek.en") and stim.get("peek2.en") and nonempty:
+            # "read/peek are ready iff non-empty", for every caller: two simultaneous peeks are both served
+            self.expect(obs["peek.done"] and obs["peek2.done"], "simultaneous-peeks-not-served",
+                        f"two callers request peek at level {level}: served {obs['peek.done']}/{obs['peek2.done']}", port="peek")
+            self.hit("two_peek_callers_served")
         for p in PORTS:
             en = stim.get(f"{p}.en", 0)
             done[p] = obs[f"{p}.done"]
@@ -146,7 +155,7 @@ class Prop(PropBase):
     expected_cov = ["write_refused_at_full", "write_refused_at_full_while_read_ran", "read_refused_at_empty",
                     "read_and_write_same_cycle", "rw_at_level_1", "rw_at_depth_minus_1",
                     "returned_value_pushed_in_read_write_cycle", "read_and_peek_same_cycle", "clear_with_write",
-                    "clear_with_read", "clear_at_full", "became_full", "became_empty", "read_right_after_full"]
+                    "clear_with_read", "clear_at_full", "became_full", "became_empty", "read_right_after_full", "two_peek_callers_served"]
     real = ["transactron.lib.stack.Stack", "transactron.lib.adapters.AdapterTrans", "TransactionManager + scheduler",
             "amaranth.lib.memory.Memory", "amaranth pysim"]
     stubs = ["cycle driver (stimulus)", "list reference model"]
@@ -163,6 +172,7 @@ class Prop(PropBase):
         cycles = rng.randint(80, 400 if big else 240)
         kinds = ["random", "random", "fill", "drain", "pingpong", "swap", "flush", "flush", "idle"]
         return {"depth": depth, "layout": layout, "cycles": cycles, "sched": rng.choice(["eager", "eager", "rr"]),
+                "peek2": int(rng.random() < 0.35),
                 "plan": make_plan(rng, cycles, kinds, min_len=4, max_len=32)}
 
     def make(self, cfg):
@@ -172,7 +182,7 @@ class Prop(PropBase):
         return {"port": (viol.get("info") or {}).get("port")}
 
     def cfg_signature(self, cfg):
-        return [cfg["depth"], cfg["layout"], cfg["sched"]]
+        return [cfg["depth"], cfg["layout"], cfg["sched"], cfg.get("peek2", 0)]
 
     def shrink_cfg(self, cfg):
         for d in (1, 2, cfg["depth"] // 2, cfg["depth"] - 1):
